@@ -4,7 +4,7 @@ import ast
 from ..model import AnalysisError, own_nodes, norm_src
 from ..peval import FuncV, Const, is_const
 from ..report import RuleResult
-from ..util import key_of, src, call_name, kwarg
+from ..util import key_of, src, call_name, kwarg, assign_pairs
 from .common import ret_exprs
 
 META = {
@@ -17,7 +17,12 @@ META = {
         'opposite; (inclusive) coordinates are inclusive everywhere: every '
         'size or index range computed from a (lower, upper) pair adds one, '
         'emptiness tests between a lower and an upper bound are non-strict, '
-        'and rectangle splitting steps by exactly one; (nodup) set difference '
+        'and rectangle splitting steps by exactly one; (tuple) the areas of '
+        'every reference set that outlives an expression are an immutable '
+        'tuple (operators extend them with += / +, which must re-bind, not '
+        'write into an operand); (value) in value extraction the fragments a '
+        'partial cover leaves are re-matched against all value blocks '
+        '(fix-point loop); (nodup) set difference '
         'removes from each area of the left operand what earlier areas already '
         'contributed (the pieces produced so far join the set it is split '
         'against), or de-duplicates afterwards; (shared) the value-extraction '
@@ -91,13 +96,19 @@ def rule_ops(ctx):
         E = ctx.effects
         me, you = orf.params[0], orf.params[1]
         for n in own_nodes(orf):
-            if isinstance(n, ast.BinOp) and isinstance(n.op, ast.Add) and \
-                    isinstance(n.left, ast.Attribute) and isinstance(
-                    n.right, ast.Attribute) and n.left.attr == 'ranges' and \
-                    n.right.attr == 'ranges':
+            left = right = None
+            if isinstance(n, ast.BinOp) and isinstance(n.op, ast.Add):
+                left, right = n.left, n.right
+            elif isinstance(n, (ast.Tuple, ast.List)) and len(n.elts) == 2 and \
+                    all(isinstance(e, ast.Starred) for e in n.elts):
+                # (*a.ranges, *b.ranges)
+                left, right = n.elts[0].value, n.elts[1].value
+            if isinstance(left, ast.Attribute) and isinstance(
+                    right, ast.Attribute) and left.attr == 'ranges' and \
+                    right.attr == 'ranges':
                 st = E.state_at(orf, n) or {}
-                la = E.alias2(orf, n.left.value, st)[0]
-                ra = E.alias2(orf, n.right.value, st)[0]
+                la = E.alias2(orf, left.value, st)[0]
+                ra = E.alias2(orf, right.value, st)[0]
                 if la == {me} and ra == {you}:
                     verdict = 'ok'
                 else:
@@ -416,6 +427,192 @@ def rule_inclusive(ctx):
     return rr
 
 
+def _tuple_kind(ctx, f, e, depth=0, seen=()):
+    """True if e is a tuple by construction, False if it is another kind of
+    sequence by construction, None if unknown ('N': only defined in terms of a
+    name already being resolved)."""
+    if depth > 6:
+        return None
+
+    def comb(ks):
+        ks = [k for k in ks if k != 'N']
+        if not ks:
+            return 'N'
+        if any(k is False for k in ks):
+            return False
+        return True if all(k is True for k in ks) else None
+
+    if isinstance(e, ast.Tuple):
+        return True
+    if isinstance(e, (ast.List, ast.ListComp, ast.Set, ast.SetComp,
+                      ast.GeneratorExp, ast.Dict, ast.DictComp)):
+        return False
+    if isinstance(e, ast.Call) and isinstance(e.func, ast.Name):
+        if e.func.id == 'tuple':
+            return True
+        if e.func.id in ('list', 'set', 'sorted', 'map', 'filter', 'dict'):
+            return False
+    if isinstance(e, ast.Attribute) and e.attr == 'ranges':
+        return True  # the invariant being established
+    if isinstance(e, ast.Subscript) and isinstance(e.slice, ast.Slice):
+        return _tuple_kind(ctx, f, e.value, depth + 1, seen)
+    if isinstance(e, ast.BinOp) and isinstance(e.op, ast.Add):
+        return comb([_tuple_kind(ctx, f, e.left, depth + 1, seen),
+                     _tuple_kind(ctx, f, e.right, depth + 1, seen)])
+    if isinstance(e, ast.IfExp):
+        return comb([_tuple_kind(ctx, f, e.body, depth + 1, seen),
+                     _tuple_kind(ctx, f, e.orelse, depth + 1, seen)])
+    if isinstance(e, ast.Name):
+        if e.id in seen:
+            return 'N'
+        from .common import _defs_of
+        vals = _defs_of(f, e.id)
+        if not vals:
+            if e.id in f.params:
+                # default value of a parameter (`ranges=()`)
+                a = f.node.args
+                pos = a.posonlyargs + a.args
+                i = [x.arg for x in pos].index(e.id) - (len(pos) - len(a.defaults))
+                if i >= 0:
+                    return _tuple_kind(ctx, f, a.defaults[i], depth + 1, seen)
+            return None
+        k = comb([_tuple_kind(ctx, f, v, depth + 1, seen + (e.id,))
+                  for v in vals])
+        return None if k == 'N' else k
+    return None
+
+
+def rule_tuple(ctx):
+    """`Ranges.ranges` is a tuple: `__sub__`, `push` and `__add__` extend it
+    with `+=` / `+`, which re-binds a tuple but would write into a list that
+    the other operand still holds."""
+    rr = RuleResult('C06', 'C06.tuple', 'KIND',
+                    'the areas of a reference set are an immutable tuple',
+                    floor=5)
+    p = ctx.project
+    R = p.cls(RANGES, 'Ranges')
+    for f in sorted(p.functions.values(), key=lambda f: f.fq):
+        sites = []
+        for n in own_nodes(f):
+            if isinstance(n, ast.Call) and isinstance(
+                    n.func, (ast.Name, ast.Attribute)):
+                r = ctx.cg.resolve_name_expr(f, n.func)
+                if r and r[0] == 'class' and r[1] is R:
+                    a = n.args[0] if n.args else kwarg(n, 'ranges')
+                    if a is not None:
+                        sites.append((n, a, 'Ranges(...)'))
+            if isinstance(n, (ast.Assign, ast.AugAssign)) and f.cls is R:
+                tg = n.targets if isinstance(n, ast.Assign) else [n.target]
+                for t in tg:
+                    if isinstance(t, ast.Attribute) and t.attr == 'ranges' and \
+                            isinstance(t.value, ast.Name) and f.params and \
+                            t.value.id == f.params[0]:
+                        if f.name == '__init__' and isinstance(
+                                n.value, ast.Name) and n.value.id in f.params:
+                            continue  # the constructor argument: call sites
+                        sites.append((n, n.value, 'self.ranges'))
+        # parents, to see whether a constructed object is consumed at once
+        parents = {}
+        for x in ast.walk(f.node):
+            for c in ast.iter_child_nodes(x):
+                parents[id(c)] = x
+        for n, a, what in sites:
+            rr.instances += 1
+            k = _tuple_kind(ctx, f, a)
+            par = parents.get(id(n))
+            transient = what == 'Ranges(...)' and isinstance(
+                par, ast.Attribute) and par.value is n
+            if k is True:
+                rr.ok('%s: %s receives a tuple (`%s`)' % (
+                    f.qualname, what, norm_src(a)[:50]),
+                    '%s:%d' % (f.module.rel, n.lineno))
+            elif k is False and not transient:
+                rr.fail(key_of(f, 'areas stored as a mutable sequence'),
+                        '%s builds a reference set whose areas are `%s`, a '
+                        'mutable sequence. Ranges.__sub__ and push extend the '
+                        'areas of an operand with `+=`: on a list that writes '
+                        'into the operand itself, so `X - Y` changes Y and '
+                        'returns the wrong areas' % (
+                            f.qualname, norm_src(a)[:60]),
+                        file=f.module.rel, function=f.qualname, line=n.lineno)
+            elif transient:
+                rr.ok('%s: a temporary Ranges over `%s` is consumed at once by '
+                      '.%s()' % (f.qualname, norm_src(a)[:40], par.attr),
+                      '%s:%d' % (f.module.rel, n.lineno), nontrivial=False)
+            else:
+                raise AnalysisError('%s: cannot tell whether `%s` is a tuple' %
+                                    (f.qualname, norm_src(a)[:60]))
+    return rr
+
+
+def rule_value(ctx):
+    """Value extraction: an area that one value block covers only in part is
+    split, and the remaining fragments have to be matched against *every* value
+    block again (another block may cover them) - the matching loop sits in a
+    loop that repeats while fragments are left."""
+    rr = RuleResult('C06', 'C06.value', 'LOOP',
+                    'fragments left by a partial cover are re-matched against '
+                    'all value blocks', floor=1)
+    p = ctx.project
+    f = p.func(RANGES, 'Ranges.value')
+    rr.instances += 1
+    parents = {}
+    for x in ast.walk(f.node):
+        for c in ast.iter_child_nodes(x):
+            parents[id(c)] = x
+    splits = [n for n in own_nodes(f) if isinstance(n, ast.Call)
+              and call_name(n) == '_split']
+    if not splits:
+        raise AnalysisError('Ranges.value: no _split call')
+    sp = splits[0]
+    # the work-list: the list whose top is split and that receives the pieces
+    work = None
+    for n in own_nodes(f):
+        if isinstance(n, ast.Call) and call_name(n) in ('extend', 'append') \
+                and isinstance(n.func.value, ast.Name):
+            src_names = {x.id for a in n.args for x in ast.walk(a)
+                         if isinstance(x, ast.Name)}
+            for t, v, _st in assign_pairs(f):
+                if isinstance(t, ast.Name) and t.id in src_names and any(
+                        c is sp for c in ast.walk(v)):
+                    work = n.func.value.id
+    if work is None:
+        raise AnalysisError('Ranges.value: the list that receives the pieces '
+                            'of _split was not found')
+    # innermost loop over the value blocks around the split
+    cur, inner_for, fix = parents.get(id(sp)), None, None
+    while cur is not None and cur is not f.node:
+        if isinstance(cur, ast.For) and inner_for is None:
+            inner_for = cur
+        elif isinstance(cur, ast.While) and inner_for is not None:
+            t = cur.test
+            if (isinstance(t, ast.Constant) and t.value) or any(
+                    isinstance(x, ast.Name) and x.id == work
+                    for x in ast.walk(t)):
+                fix = cur
+                break
+        cur = parents.get(id(cur))
+    if inner_for is None:
+        raise AnalysisError('Ranges.value: _split is not inside a loop over '
+                            'the value blocks')
+    if fix is not None:
+        rr.ok('the loop over the value blocks is repeated while `%s` still '
+              'holds fragments (line %d)' % (work, fix.lineno),
+              '%s:%d' % (RANGES, inner_for.lineno))
+    else:
+        rr.fail(key_of(f, 'fragments matched against later value blocks only'),
+                'Ranges.value pushes the fragments of a partly covered area '
+                'onto `%s` inside `for %s in %s`, and no enclosing loop '
+                'repeats that scan while fragments are left: a fragment is '
+                'only compared with the value blocks that come later in the '
+                'iteration (and only while it is on top), so cells of '
+                'overlapping or nested areas are silently missing from the '
+                'value' % (work, norm_src(inner_for.target),
+                           norm_src(inner_for.iter)[:40]),
+                file=RANGES, function=f.qualname, line=inner_for.lineno)
+    return rr
+
+
 def rule_nodup(ctx):
     rr = RuleResult('C06', 'C06.nodup', 'DEP',
                     'set difference does not repeat cells that overlapping '
@@ -505,4 +702,4 @@ def run(ctx):
     shared = rule_global(ctx, 'C06', 'C06.shared', floor=8,
                          only=lambda f: f.module.rel == RANGES)
     return [rule_ops(ctx), rule_lattice(ctx), rule_inclusive(ctx),
-            rule_nodup(ctx), shared]
+            rule_nodup(ctx), rule_tuple(ctx), rule_value(ctx), shared]
